@@ -133,6 +133,7 @@ type Config struct {
 	Deadline   time.Duration // wall clock budget for the search (0 = none)
 	Workers    int
 	Horizon    time.Duration // per-transition horizon before the watchdog looks (default 20s)
+	Confirm    time.Duration // time between the two stack dumps that must agree (default 10s)
 	Known      map[string]bool // known-finding signatures (property|rule|site)
 	ReplayLeaf int           // number of leaf paths to re-execute straight-line
 	Quiet      bool
@@ -204,6 +205,7 @@ type taskResult struct {
 	idx  int
 	step Step
 	stuck bool
+	skipped bool
 }
 
 type wstate struct {
@@ -262,6 +264,9 @@ func Run(sc Scenario, cfg Config) *Result {
 	if cfg.Horizon == 0 {
 		cfg.Horizon = 20 * time.Second
 	}
+	if cfg.Confirm == 0 {
+		cfg.Confirm = 10 * time.Second
+	}
 	res := &Result{Scenario: sc.ID(), Counters: map[string]int{}, OpCounts: map[string]int{}, Pruned: map[string]int{}, Known: map[string]*KnownHit{}, Exhaustive: true}
 	obs := map[string]bool{}
 
@@ -285,6 +290,7 @@ func Run(sc Scenario, cfg Config) *Result {
 	tasks := make(chan task, 1024)
 	results := make(chan taskResult, 1024)
 	var wsMu sync.Mutex
+	var abort int32 // set when an unknown violation has been seen: remaining tasks of the chunk are skipped
 	var workers []*wstate
 	var spawn func()
 	spawn = func() {
@@ -296,6 +302,10 @@ func Run(sc Scenario, cfg Config) *Result {
 			ws.gid = curGID()
 			w := sc.NewWorker()
 			for t := range tasks {
+				if atomic.LoadInt32(&abort) == 1 {
+					results <- taskResult{idx: t.idx, skipped: true}
+					continue
+				}
 				ws.curOp.Store(t)
 				atomic.StoreInt64(&ws.startNano, time.Now().UnixNano())
 				st := sc.Apply(w, t.n.state, t.op)
@@ -343,7 +353,7 @@ func Run(sc Scenario, cfg Config) *Result {
 					firstAt[w] = time.Now()
 					continue
 				}
-				if time.Since(firstAt[w]) < 10*time.Second {
+				if time.Since(firstAt[w]) < cfg.Confirm {
 					continue
 				}
 				// still in the same transition 10 s after the first dump
@@ -401,9 +411,18 @@ func Run(sc Scenario, cfg Config) *Result {
 			for i := 0; i < len(part); i++ {
 				r := <-results
 				out[r.idx] = r
+				for _, v := range r.step.Violations {
+					if !cfg.Known[v.Property+"|"+v.Signature()] {
+						// tasks are dequeued in index order, so every lower-index task has already started
+						atomic.StoreInt32(&abort, 1)
+					}
+				}
 			}
 			for i, r := range out {
 				t := part[i]
+				if r.skipped {
+					continue
+				}
 				res.Transitions++
 				res.OpCounts[t.op.Kind]++
 				if r.stuck {
